@@ -194,7 +194,11 @@ def make_distance_matrix_from_adjacency_matrix(AG):
         representation of G based on its shortest path lengths.
     """
     # Convert adjacency matrix to SciPy format if needed.
-    if not sps.issparse(AG) and not isinstance(AG, np.ndarray):
+    if sps.issparse(AG):
+        # csgraph's dense code path (chosen for small or dense graphs) only
+        # accepts CSR, CSC and LIL matrices.
+        AG = sps.csr_matrix(AG)
+    elif not isinstance(AG, np.ndarray):
         AG = np.asarray(AG)
 
     # Compile distance matrix of the graph based on its shortest path
